@@ -3,6 +3,7 @@ package main
 import (
 	"fmt"
 	"go/types"
+	"hash/crc32"
 	"math"
 	"strconv"
 	"strings"
@@ -396,6 +397,28 @@ func init() {
 	intercepts["math/rand.Int63n"] = randIntn
 	intercepts["math/rand.Int31n"] = randIntn
 	intercepts["math/rand/v2.IntN"] = randIntn
+	// CRC32: an uninterpreted function of the input bytes (collisions possible, as in reality)
+	intercepts["hash/crc32.MakeTable"] = func(it *Interp, fn *ssa.Function, args []Value) Value { return nilPtr() }
+	intercepts["hash/crc32.Checksum"] = func(it *Interp, fn *ssa.Function, args []Value) Value {
+		data := it.sliceTerms(args[0].(*SliceV))
+		if len(data) == 0 {
+			return it.ts.BV(0, 32)
+		}
+		allc := true
+		for _, d := range data {
+			if !d.IsConst() {
+				allc = false
+			}
+		}
+		if allc {
+			bs := make([]byte, len(data))
+			for i, d := range data {
+				bs[i] = byte(d.cval)
+			}
+			return it.ts.BV(uint64(crc32.Checksum(bs, crc32.MakeTable(crc32.Castagnoli))), 32)
+		}
+		return it.ts.UF(fmt.Sprintf("crc32c_%d", len(data)), 32, data...)
+	}
 	intercepts["maps.clone"] = func(it *Interp, fn *ssa.Function, args []Value) Value {
 		iv := args[0].(*IfaceV)
 		m, ok := iv.v.(*MapV)
@@ -644,6 +667,14 @@ func (it *Interp) fmtArg(verb byte, flags string, arg Value) *StrV {
 					return &StrV{b: []*Term{it.ts.Num(it.ts.ZExt(v, 64), 16)}}
 				}
 			}
+		}
+		if _, signed, ok := intInfo(iv.t); ok && !signed && verb == 'x' && flags == "08" && v.w == 32 {
+			// fixed-width zero-padded hex: an injective 8-character numeral
+			if v.IsConst() {
+				return concStr(fmt.Sprintf("%08x", v.cval))
+			}
+			n := it.ts.Num(it.ts.ZExt(v, 64), 16)
+			return &StrV{b: []*Term{it.ts.mk(OpNum, 8, n.args, 0, "", 16, 8)}}
 		}
 		if v.w == 0 && (verb == 't' || verb == 'v') && v.IsConst() {
 			if v.cval == 1 {
